@@ -300,3 +300,82 @@ class PackageTable:
         except Raised as r:
             return f"{stage} raises {r.exc}"
         return None
+
+
+def external_rows(prog: Program) -> list[tuple[str, bool, str]]:
+    """C06-R5: the fixpoint loop of resolve_aliases with packages outside the collection, on behaviour.
+
+    pkg/a.py imports x and y from another package and its class C imports z from it; `GriffeLoader.load` is replaced by a recording stand-in that
+    fails (ImportError), returns without adding anything, or inserts the package.  Observed: the packages load() was asked for, the returned
+    unresolved set and iteration count.
+    """
+    from sa.absint import Native
+
+    t = PackageTable(prog)
+    it = t.it
+    ra = t.fns["resolve_aliases"]
+    rows: list[tuple[str, bool, str]] = []
+
+    def scenario(mode: str, external: object, max_iterations: object, other: str = "ext") -> tuple[list[str], set[str], object]:
+        it.steps = 0
+        coll = it._construct(t.cc, [], {})
+        pkg = t.new("Module", "pkg", filepath=t.PP("/s/pkg/__init__.py"))
+        t.setm(coll, "pkg", pkg)
+        a = t.new("Module", "a", filepath=t.PP("/s/pkg/a.py"))
+        t.setm(pkg, "a", a)
+        c = t.new("Class", "C", lineno=3, endlineno=4)
+        t.setm(a, "C", c)
+        for holder, n in ((a, "x"), (a, "y"), (c, "z")):
+            t.setm(holder, n, t.new("Alias", n, f"{other}.{n}", lineno=1, endlineno=1))
+            holder.attrs["imports"][n] = f"{other}.{n}"
+        loads: list[str] = []
+
+        def load(_i, _self, package, **_k):
+            loads.append(package)
+            if mode == "fails":
+                raise Raised("ImportError")
+            if mode == "loads":
+                m = t.new("Module", other, filepath=t.PP(f"/s/{other}/__init__.py"))
+                for n in "xyz":
+                    t.setm(m, n, t.new("Attribute", n, lineno=1, endlineno=1))
+                t.setm(coll, other, m)
+                return m
+            return None
+
+        it.stubs[f"{L}.load"] = load
+        loader = Obj(prog.cls(L), {"modules_collection": coll, "extensions": Obj(None, {"call": Native(lambda *_a, **_k: None)})}, label="loader")
+        try:
+            un, iters = it.call(ra, loader, implicit=True, external=external, max_iterations=max_iterations)
+        except StepLimit:
+            return loads, set(), "does not terminate within the step budget"
+        except (DepthLimit, RecursionError):
+            return loads, set(), "unbounded recursion"
+        except Raised as r:
+            return loads, set(), f"raises {r.exc}"
+        finally:
+            it.stubs.pop(f"{L}.load", None)
+        return loads, set(un), iters
+
+    every = {"pkg.a.x", "pkg.a.y", "pkg.a.C.z"}
+    loads, un, iters = scenario("fails", True, None)
+    rows.append(("external|load fails", loads == ["ext"] and un == every and iters == 2,
+                 f"three imports from a package that cannot be loaded: expected one load attempt (failures are remembered), all three left unresolved, and the loop to "
+                 f"stop after the pass that changes nothing (2 iterations); got loads {loads}, unresolved {sorted(un)}, iterations {iters}"))
+    loads, un, iters = scenario("loads", True, None)
+    rows.append(("external|load succeeds", loads == ["ext"] and un == set() and iters == 2,
+                 f"three imports from a loadable package: expected one load, nothing unresolved after the second pass; got loads {loads}, unresolved {sorted(un)}, iterations {iters}"))
+    loads, un, iters = scenario("nothing", True, None)
+    rows.append(("external|load adds nothing", bool(loads) and set(loads) == {"ext"} and un == every and iters == 2,
+                 f"load() returns without providing the names: expected the loop to stop as soon as the unresolved set repeats (2 iterations); got iterations {iters}, unresolved {sorted(un)}"))
+    loads, un, iters = scenario("nothing", True, 1)
+    rows.append(("external|max_iterations=1", un == every and iters == 1, f"max_iterations=1: expected exactly one pass; got iterations {iters}, unresolved {sorted(un)}"))
+    loads, un, iters = scenario("nothing", True, 0)
+    rows.append(("external|max_iterations=0", not loads and iters == 0, f"max_iterations=0: expected no pass and no load; got iterations {iters}, loads {loads}"))
+    loads, un, iters = scenario("loads", False, None)
+    rows.append(("external|external=False", not loads and un == every, f"external=False: expected no load and all three unresolved; got loads {loads}, unresolved {sorted(un)}"))
+    loads, un, iters = scenario("loads", None, None)
+    rows.append(("external|external=None, another package", not loads and un == every, f"external=None, imports from `ext`: expected no load; got loads {loads}, unresolved {sorted(un)}"))
+    loads, un, iters = scenario("loads", None, None, other="_pkg")
+    rows.append(("external|external=None, private sibling", loads == ["_pkg"] and un == set(),
+                 f"external=None, imports from `_pkg` (the package's private sibling): expected it to be loaded once and everything resolved; got loads {loads}, unresolved {sorted(un)}"))
+    return rows
